@@ -33,6 +33,7 @@ CACHE_QUERIES = [
     "$.xs[?value($.k) == @.k]", "$.xs[?match($.s, 'a.*') && @.k > 1]", "$.xs[?$.nothing == @.nothing]", "$.xs[?$.a[?@ > 1] && @.k == 2]", "$.xs[?!$.zzz && @.k]",
     "$.xs[?_.list contains @.k || $.k == 5]", "$[?@ == $.k]", "$.a[?@ > $.k]", "$.a[?@ > 1 && 2 > 1]",
 ]
+COMPOUND_CTX = ["$.xs[?@.k == _.v] | $.xs[?@.k != _.v]", "$.xs[?@.k == $.k] & $.xs[*]", "$.a[?@ > $.k] | $.xs[?_.flag].k | $.list[?@ == _.v]"]
 DOCSEQ = [
     {"a": [1, 2, 3], "k": 1, "s": "ab", "list": [1, 2], "xs": [{"ys": [1, 2], "k": 2}, {"ys": [2], "k": 1}, {"k": 5}]},
     {"a": [3], "k": 2, "s": "b", "list": [5], "xs": [{"ys": [2], "k": 2}, {"ys": [], "k": 5}]},
@@ -42,7 +43,7 @@ DOCSEQ = [
 
 
 def gen(ctx):
-    texts = CACHE_QUERIES + qpool.STANDARD + qpool.EXTENSION[:30] + qpool.generated_texts(ctx.rng, 60 if ctx.tier == "quick" else 1500)
+    texts = CACHE_QUERIES + qpool.STANDARD + qpool.EXTENSION + qpool.COMPOUND + COMPOUND_CTX + qpool.generated_texts(ctx.rng, 60 if ctx.tier == "quick" else 1500)
     cases = []
     docs = DOCSEQ + qpool.DOCS[:4]
     for t in texts:
@@ -150,8 +151,58 @@ def evaluate(ctx, cases):
                 if ga != ref[0] or gb != ref[1]:
                     ctx.violation("lazy iterators from the same compiled query advanced in any interleaving must each yield their own result", {**inp, "schedule": "".join(sched)}, [ga[:4], gb[:4]], [ref[0][:4], ref[1][:4]])
                     break
+        # two lazy iterators over the SAME document object with different filter contexts, caching on and off
+        if "_" in text and not isinstance(ref[0], dict):
+            e1, e2 = qpool.CONTEXTS[1], {"v": 1, "flag": False, "list": [5], "x": {"y": 2}}
+            w1, w2 = _n(_run(env_off.compile(text), copy.deepcopy(docs[0]), e1)), _n(_run(env_off.compile(text), copy.deepcopy(docs[0]), e2))
+            if not isinstance(w1, dict) and not isinstance(w2, dict):
+                for which, q in (("caching on", qon), ("caching off", qoff)):
+                    for sched in ("ABABAB", "AABBAB", "BBBAAA"):
+                        ia, ib = iter(q.finditer(docs[0], filter_context=e1)), iter(q.finditer(docs[0], filter_context=e2))
+                        ga, gb = [], []
+                        try:
+                            for s_ in sched:
+                                it, acc = (ia, ga) if s_ == "A" else (ib, gb)
+                                try:
+                                    x = next(it)
+                                    acc.append([x.path, core.canon(x.obj)])
+                                except StopIteration:
+                                    pass
+                            ga += [[x.path, core.canon(x.obj)] for x in ia]
+                            gb += [[x.path, core.canon(x.obj)] for x in ib]
+                        except Exception as e:  # noqa: BLE001
+                            ctx.violation("interleaved iteration raised", {**inp, "schedule": sched}, core.exc_name(e), "results")
+                            break
+                        ctx.count("interleavings-two-contexts")
+                        if ga != w1 or gb != w2:
+                            ctx.violation(f"two lazy iterators over the same document with different filter contexts must each see their own context ({which})",
+                                          {**inp, "schedule": sched, "contexts": [e1, e2]}, [ga[:4], gb[:4]], [w1[:4], w2[:4]])
+                            break
+        # tasks: one compiled query, several documents / contexts, gathered on one event loop (async getters yield)
+        if not isinstance(ref[0], dict) and ctx.rng.random() < (0.3 if ctx.tier == "quick" else 1.0):
+            import asyncio
+
+            async def one(i):
+                await asyncio.sleep(0)
+                return [[m.path, core.canon(m.obj)] async for m in await qon.finditer_async(docs[i % len(docs)], filter_context=extra)]
+
+            async def allv(i):
+                await asyncio.sleep(0)
+                return await qon.findall_async(docs[i % len(docs)], filter_context=extra)
+
+            async def main():
+                return await asyncio.gather(*[one(i) for i in range(6)], *[allv(i) for i in range(3)])
+            r = core.outcome(lambda: asyncio.run(main()))
+            ctx.count("gather-one-compiled")
+            if "err" in r:
+                ctx.violation("concurrent tasks on one compiled query raised", inp, r["err"], "results")
+            else:
+                for i in range(6):
+                    if r["ok"][i] != ref[i % len(docs)]:
+                        ctx.violation("evaluations of one compiled query running concurrently as tasks must each return their own result", {**inp, "task": i}, r["ok"][i][:4], ref[i % len(docs)] if isinstance(ref[i % len(docs)], dict) else ref[i % len(docs)][:4])
+                        break
         # threads
-        if ctx.tier != "quick" and not isinstance(ref[0], dict):
+        if (ctx.tier != "quick" or ctx.rng.random() < 0.15) and not isinstance(ref[0], dict):
             res = [None] * 8
             def work(j):
                 res[j] = _n(_run(qon, docs[j % len(docs)], extra))
